@@ -119,6 +119,7 @@ PROPS["C08"]["runs"] += [
     R("mpeg1audio-hostile", "pkg/format/rtpmpeg1audio", "pkg/format/rtpmpeg1audio", ["ZzC08MPEG1AudioHist"], quick_params={"K": 1, "P": 60}, thorough_params={"K": 2, "P": 60}),
     R("ac3-hostile", "pkg/format/rtpac3", "pkg/format/rtpac3", ["ZzC08AC3Hist"], quick_params={"K": 1, "P": 136}, thorough_params={"K": 2, "P": 136}),
     R("mjpeg-hostile", "pkg/format/rtpmjpeg", "pkg/format/rtpmjpeg", ["ZzC08MJPEGHist"], quick_params={"K": 1, "P": 14}, thorough_params={"K": 2, "P": 14}),
+    R("ptsequalsdts", "pkg/format", "pkg/format", ["ZzC08PTSEqualsDTS"], quick_params={"P": 12}, thorough_params={"P": 24}),
     R("lpcm-hostile", "pkg/format/rtplpcm", "pkg/format/rtplpcm", ["ZzC08LPCM"]),
     R("simpleaudio-hostile", "pkg/format/rtpsimpleaudio", "pkg/format/rtpsimpleaudio", ["ZzC08SimpleAudio"]),
     R("mpegts-hostile", "pkg/format/rtpmpegts", "pkg/format/rtpmpegts", ["ZzC08MPEGTS"]),
